@@ -31,6 +31,8 @@ type KernelSpec struct {
 	Setup       func(k *Kernel)
 	Program     *Program // preloaded program (skips Load)
 	Fixed       map[int]int64
+	GenMode     string   // cff generation mode of the corpus this spec was loaded from
+	GenKeep     []string // corpus file subset (modifier mode)
 }
 
 type KernelResult struct {
